@@ -18,11 +18,13 @@ CONSTANTS KV,        \* key cell values
           MaxRect,   \* rectangular tables: up to MaxRect rows per side
           MaxRag     \* ragged tables: up to MaxRag rows per side
 
-LHdr(lay) == IF lay = "compound" THEN <<"k", "j", "a">> ELSE <<"k", "a">>
+\*   cswap    LH = (k, j, a)  RH = (j, k, b)  key = (k, j)   (key order differs from the right header order)
+LHdr(lay) == IF lay \in {"compound", "cswap"} THEN <<"k", "j", "a">> ELSE <<"k", "a">>
 RHdr(lay) == CASE lay = "same" -> <<"k", "b">> [] lay = "diff" -> <<"b", "j">> [] lay = "compound" -> <<"k", "j", "b">>
-LKeyIdx(lay) == IF lay = "compound" THEN <<1, 2>> ELSE <<1>>
-RKeyIdx(lay) == CASE lay = "same" -> <<1>> [] lay = "diff" -> <<2>> [] lay = "compound" -> <<1, 2>>
-RValIdx(lay) == CASE lay = "same" -> <<2>> [] lay = "diff" -> <<1>> [] lay = "compound" -> <<3>>
+               [] lay = "cswap" -> <<"j", "k", "b">>
+LKeyIdx(lay) == IF lay \in {"compound", "cswap"} THEN <<1, 2>> ELSE <<1>>
+RKeyIdx(lay) == CASE lay = "same" -> <<1>> [] lay = "diff" -> <<2>> [] lay = "compound" -> <<1, 2>> [] lay = "cswap" -> <<2, 1>>
+RValIdx(lay) == CASE lay = "same" -> <<2>> [] lay = "diff" -> <<1>> [] lay = "compound" -> <<3>> [] lay = "cswap" -> <<3>>
 
 Pick(row, idx) == [j \in 1..Len(idx) |-> row[idx[j]]]
 Fill(n, v) == [j \in 1..n |-> v]
@@ -105,6 +107,10 @@ CompL(ks) == [i \in 1..Len(ks) |-> <<ks[i][1], ks[i][2], Id(1, i)>>]
 CompR(ks) == [i \in 1..Len(ks) |-> <<ks[i][1], ks[i][2], Id(2, i)>>]
 CompCases == {JoinCase("compound", o, 0, CompL(lk), CompR(rk)) :
                  lk \in SeqsUpTo(CKeys, 2), rk \in SeqsUpTo(CKeys, 2), o \in Ops}
+\* right rows stored as <<j, k, id>>
+CompRSwap(ks) == [i \in 1..Len(ks) |-> <<ks[i][2], ks[i][1], Id(2, i)>>]
+CSwapCases == {JoinCase("cswap", o, 0, CompL(lk), CompRSwap(rk)) :
+                 lk \in SeqsUpTo(CKeys, 2), rk \in SeqsUpTo(CKeys, 2), o \in Ops}
 
 \* crossjoin: cartesian product of the squared-up rows, in nested-loop order
 RECURSIVE Cross(_)
@@ -117,7 +123,7 @@ XTables == {[i \in 1..Len(s) |-> MkRow(s[i], 1, i)] : s \in SeqsUpTo({<<"full", 
 CrossCases == {CrossCase(<<t1, t2>>, m) : t1, t2 \in XTables, m \in {0, 2}}
               \cup {CrossCase(<<t1, t2, t3>>, 0) : t1, t2, t3 \in {<<>>, <<<<1, 1001>>>>, <<<<1>>, <<2, 1002>>>>}}
 
-ASSUME ndJsonSerialize(IOEnv.OUT, SetToSeq(RectCases) \o SetToSeq(DiffCases) \o SetToSeq(RagCases) \o SetToSeq(CompCases))
+ASSUME ndJsonSerialize(IOEnv.OUT, SetToSeq(RectCases) \o SetToSeq(DiffCases) \o SetToSeq(RagCases) \o SetToSeq(CompCases) \o SetToSeq(CSwapCases))
 ASSUME ndJsonSerialize(IOEnv.OUT2, SetToSeq(CrossCases))
 
 \* lookups (C07): key -> positions of all its rows in table order; dup = some key repeats
